@@ -355,21 +355,32 @@ func ruleMergeDispatch(c *Ctx, r *R) {
 			sameList := func(v ssa.Value) bool { // the very list handed to reflect.Select, possibly seen from the caller of a helper
 				return v == arg || valueProv(v, provEnv{}).String() == argP
 			}
-			b := dd.site.Block() // the place in Merge itself (the call may sit in a helper: open.recv())
-			for _, g := range guardsOf(b) {
-				cf, ok := g.asCmp()
-				if !ok {
-					continue
-				}
-				lc, isLen := cf.x.(*ssa.Call)
-				if !isLen {
-					continue
-				}
-				if bi, ok := lc.Call.Value.(*ssa.Builtin); !ok || bi.Name() != "len" || !sameList(lc.Call.Args[0]) {
-					continue
-				}
-				if (cf.op == token.NEQ && isConstInt(cf.y, 0)) || (cf.op == token.GTR && isConstInt(cf.y, 0)) || (cf.op == token.GEQ && isConstInt(cf.y, 1)) {
-					guarded = true
+			// the guard may sit next to the call (in a helper that holds the loop) or, when the call sits in a small helper
+			// (open.recv()), at the place in Merge from which that helper is called: the guards of every frame count
+			b := dd.site.Block() // the frame that holds the loop: where the guard is
+			places := []*ssa.BasicBlock{call.Block()}
+			for k := len(dd.calls) - 1; k >= 0; k-- {
+				places = append(places, dd.calls[k].Block())
+			}
+			for _, pb := range places {
+				for _, g := range guardsOf(pb) {
+					cf, ok := g.asCmp()
+					if !ok {
+						continue
+					}
+					lc, isLen := cf.x.(*ssa.Call)
+					if !isLen {
+						continue
+					}
+					if bi, ok := lc.Call.Value.(*ssa.Builtin); !ok || bi.Name() != "len" || !sameList(lc.Call.Args[0]) {
+						continue
+					}
+					if (cf.op == token.NEQ && isConstInt(cf.y, 0)) || (cf.op == token.GTR && isConstInt(cf.y, 0)) || (cf.op == token.GEQ && isConstInt(cf.y, 1)) {
+						if !guarded {
+							b = pb
+						}
+						guarded = true
+					}
 				}
 			}
 			r.ok(guarded, "chans.Merge|reflect-select-guard", call.Pos(), "reflect.Select must be guarded by a non-empty case list on every iteration, including the first: with zero inputs (or after the last one closed) it blocks forever")
